@@ -40,6 +40,13 @@ def all_paths():
     return ['%s%s%s' % (d + '/' if d else '', s, e) for d in dirs for s in STEMS for e in EXTS]
 
 
+TWINS = [('.a/x.c', 'a/x.c'), ('.compat/io.c', 'compat/io.c'), ('.v.c', 'v.c'),
+         ('..a/x.c', 'a/x.c'), ('a./x.c', 'a/x.c'), ('a/.x.c', 'a/x.c'), ('a/..x.c', 'a/x.c'),
+         ('A/x.c', 'a/x.c'), ('a/X.c', 'a/x.c'), ('a-b/x.c', 'a_b/x.c'), ('a/b/x.c', 'a_b/x.c'),
+         ('a/b/x.c', 'a.b/x.c'), ('ab/x.c', 'a/b/x.c'), ('a/x.c', 'a/a/x.c'),
+         ('.a/.b/x.c', 'a/b/x.c'), ('a/.b/x.c', 'a/b/x.c'), ('...a/x.c', '.a/x.c')]
+
+
 def collides(p, q):
     return os.path.splitext(p)[0] == os.path.splitext(q)[0]
 
@@ -60,6 +67,9 @@ def cases(tier, seed):
             yield {'kind': 'pairs', 'backend': backend, 'pairs': gl[i:i + per], 'expect': 'accept'}
         for pq in bad:
             yield {'kind': 'pairs', 'backend': backend, 'pairs': [pq], 'expect': 'refuse'}
+        # twins: two sources whose paths differ by characters a tidy-up of the placement code
+        # might strip or fold (leading / trailing dots, case, look-alike separators)
+        yield {'kind': 'pairs', 'backend': backend, 'pairs': TWINS, 'expect': 'accept'}
     # families of stems that differ only by characters that also occur in the extension
     # (cal.c / calc.c, a.cpp / app.cpp, c.c / cc.c ...): suffix-stripping slips collide these
     fams = []
@@ -110,7 +120,9 @@ def cases(tier, seed):
 
 
 NAMES = ['a', 'b', 'ab', 'cd', 'xy', 'a.b', 'lib', 'src', 'x', 's1', 's2', 'm-n', 'u_v',
-         'a_very_long_component_name_that_goes_on_and_on', 'Z9']
+         'a_very_long_component_name_that_goes_on_and_on', 'Z9',
+         # dot-prefixed twins of other names: a hidden directory is a directory like any other
+         '.a', '.x', '.lib', '..a']
 
 
 def gen_set_case(rng, index):
